@@ -24,7 +24,7 @@ ASSUMPTIONS = [
 SIGNATURES = ()
 
 T0 = writersim.T0
-METRICS = ['a', 'b', 'c']
+METRICS = ['a', 'b', '', 'c']      # '' is a legal (and falsy) metric name
 
 
 @st.composite
